@@ -131,6 +131,7 @@ class FakeEvent:
 class FakeThread:
     """threading.Thread whose target is run synchronously by the harness (run_target)"""
     instances = []
+    notes = []
 
     def __init__(self, target=None, args=(), kwargs=None, **kw):
         self.target, self.args, self.kwargs = target, args, kwargs or {}
@@ -159,6 +160,14 @@ class FakeThread:
         if self.started and not self.finished:
             # stop() issued from another (real) thread while the worker is inside a handler: block as Thread.join does
             if getattr(self, "runner", None) not in (None, _real_threading.get_ident()):
+                if timeout is not None:
+                    # virtual time: the handler the worker is busy with may outlast ANY finite timeout (the property quantifies over
+                    # all handler durations), so a join with a timeout expires here - as the real one does after `timeout` seconds -
+                    # and returns with the thread still alive
+                    FakeThread.notes.append("stop() waits for the clock thread with a timeout (join(%r)): with a handler that runs longer, stop() returns "
+                                            "while the thread is still ticking, and the next start() runs a second clock" % (timeout,))
+                    self.join_entered.set()
+                    return
                 self.join_entered.set()
                 if not self.done.wait(20):
                     raise Crash("worker did not end within 20 s of a stop() request")
@@ -405,6 +414,8 @@ def run_session(P, case):
         clk.stop()
         if clk._thread is not None or clk._breaker.is_set():
             vc.anomalies.append("stop() left thread/breaker state behind")
+        while FakeThread.notes:
+            vc.anomalies.append("STOP-TIMEOUT " + FakeThread.notes.pop())
         # ---- assemble observations (sends / handler calls are stamped with the iteration in flight)
         if crashed == 1 and entries:
             entries.pop()        # the iteration that raised produces no observation (as in the model)
@@ -597,7 +608,10 @@ def oracle(case, struct, anomalies, tick, d_period, d_start):
     """the property, stated directly on what the real CLCKGen did.  Returns [(key, what, detail)]."""
     bad = []
     for a in anomalies:
-        bad.append(("c09-harness-anomaly", a, {}))
+        if a.startswith("STOP-TIMEOUT "):
+            bad.append(("c09-stop-returns-while-thread-runs", a[len("STOP-TIMEOUT "):], {}))
+        else:
+            bad.append(("c09-harness-anomaly", a, {}))
     per = d_period if case["period"] is None else case["period"]
     start = d_start if case["start"] is None else case["start"]
     nl = case["nlinks"]
